@@ -80,12 +80,15 @@ Proof. intros H Ho. apply overlap_false in Ho. destruct Ho. eapply nget_nset_oth
 (* ---- evaluation reads only the listed locations -------------------------------------- *)
 Lemma eval_local e : forall st st', (forall q, In q (reads e) -> nget st q = nget st' q) -> eval st e = eval st' e.
 Proof.
-  induction e as [z|p|o a IHa b IHb|f a|k a IHa]; intros st st' H; cbn [eval reads] in *.
+  induction e as [z|p|o a IHa b IHb|f a|f a|k a IHa]; intros st st' H; cbn [eval reads] in *.
   - reflexivity.
   - apply H. now left.
   - assert (Ha : eval st a = eval st' a) by (apply IHa; intros q Hq; apply H; apply in_app_iff; auto).
     assert (Hb : eval st b = eval st' b) by (apply IHb; intros q Hq; apply H; apply in_app_iff; auto).
     now rewrite Ha, Hb.
+  - assert (Hf : nget st f = nget st' f) by (apply H; cbn; auto).
+    assert (Ha : nget st a = nget st' a) by (apply H; cbn; auto).
+    now rewrite Hf, Ha.
   - assert (Hf : nget st f = nget st' f) by (apply H; cbn; auto).
     assert (Ha : nget st a = nget st' a) by (apply H; cbn; auto).
     now rewrite Hf, Ha.
